@@ -444,6 +444,11 @@ class Interp:
                 key = 'const:' + name
                 if key not in self.statics: self.statics[key] = self.run_body(cands[0], [])
                 return self.copyval(self.statics[key])
+            ic = [b for b in self.find_impl(name) if b.kind == 'const']
+            if len(ic) == 1:
+                key = 'const:' + name
+                if key not in self.statics: self.statics[key] = self.run_body(ic[0], [])
+                return self.copyval(self.statics[key])
             base = re.sub(r'::<.*>$', '', name)
             mm = re.match(r'^(.*)::(\w+)$', base)
             if mm and self.is_enum_type(mm.group(1)) and mm.group(2) in self.enum_table(mm.group(1)):
@@ -564,7 +569,7 @@ class Interp:
             raise Unsupported(f'unop {rv[1]} on {a!r}')
         if k == 'discriminant':
             v = self.load(frame, rv[1])
-            if isinstance(v, VEnum): return VInt(self.variant_index(v), 'isize')
+            if isinstance(v, VEnum): return VInt(self.variant_index(v), destty.strip() if destty and destty.strip() in INT_RANGE else 'isize')
             raise Unsupported(f'discriminant of {v!r}')
         if k == 'len':
             v = self.load(frame, rv[1])
